@@ -96,10 +96,12 @@ Lemma score_pairs_even l : Nat.even (length l) = true -> score_pairs pf l <> Pai
 Proof.
   remember (length l) as n eqn:Hn. revert l Hn.
   induction n as [n IH] using lt_wf_ind. intros l Hn He.
-  destruct l as [|s [|m rest]]; simpl.
+  destruct l as [|s [|m rest]].
   - discriminate.
   - simpl in Hn. subst n. discriminate.
-  - destruct (pf s); [|discriminate].
+  - cbn [score_pairs].
+    destruct (pf s) as [x|]; [|discriminate].
+    destruct (f_isnan x); [discriminate|].
     apply (IH (length rest)); [simpl in Hn; lia|reflexivity|].
     simpl in Hn. subst n. simpl in He. exact He.
 Qed.
